@@ -90,6 +90,30 @@ def struct(T: Any) -> Any:
     return ("O", repr(k[1]))
 
 
+def ostruct(T: Any) -> Any:
+    """Like struct() but order-preserving (union members and TypedDict fields as sequences): a key under which only
+    types that NO code can tell apart are merged (the rewriters read union.__args__[0])."""
+    k = classify(T)
+    tag = k[0]
+    if tag == "any":
+        return "Any"
+    if tag == "union":
+        return ("U", tuple(ostruct(a) for a in k[1]))
+    if tag == "atd":
+        return ("ATD", tuple((n, ostruct(t)) for n, t in k[1].items()), tuple((n, ostruct(t)) for n, t in k[2].items()))
+    if tag == "td":
+        return ("TD", k[1], tuple((n, ostruct(t)) for n, t in k[2].items()), bool(k[3]))
+    if tag == "generic":
+        if k[2] is None:
+            return ("G", k[1], "bare")
+        return ("G", k[1], tuple("..." if a is Ellipsis else ostruct(a) for a in k[2]))
+    if tag == "class":
+        return ("C", k[1])
+    if tag == "fref":
+        return ("FR", k[1])
+    return ("O", repr(k[1]))
+
+
 def show(T: Any) -> str:
     """Readable, deterministic rendering for samples/messages."""
     k = classify(T)
